@@ -209,7 +209,17 @@ type outEnv struct {
 	rec     *recorder
 	now     time.Time
 	targets map[string]map[string]dispatcher.TargetConfig // route -> url -> target
+
+	routeNames [][]string // [variant][header scheme]
 }
+
+var targetURLs = func() []string {
+	out := make([]string, len(urlPaths))
+	for i, p := range urlPaths {
+		out[i] = targetOrigin + p.Raw
+	}
+	return out
+}()
 
 func (e *outEnv) spec(vi int) outSpec {
 	return outSpec{Windows: e.windows, Order: e.vars[vi].Order, Sel: e.vars[vi].Sel, Unload: e.unload}
@@ -240,6 +250,13 @@ func bootOut(windows []win, unload, worker int, vars []variant, useNowSeam bool)
 	e.deliv = hd
 	if useNowSeam {
 		hd.Now = func() time.Time { return e.now }
+	}
+	for vi := range vars {
+		var names []string
+		for h := range outRoutes {
+			names = append(names, routeOf(vi, h))
+		}
+		e.routeNames = append(e.routeNames, names)
 	}
 	e.targets = map[string]map[string]dispatcher.TargetConfig{}
 	for _, rt := range e.pd.Routes {
@@ -399,7 +416,7 @@ func (e *outEnv) deliver(route, url string, sh shape, names headerNames, at time
 // evalCase: one element of the outbound product (variant vi of the booted configuration).
 func (e *outEnv) evalCase(vi int, sh shape, clk instant) (pick int, tie string, fl *failure, infra error) {
 	rt := outRoutes[sh.Route]
-	got, err := e.deliver(routeOf(vi, sh.Route), targetOrigin+urlPaths[sh.Path].Raw, sh, rt.Expected, clk.At)
+	got, err := e.deliver(e.routeNames[vi][sh.Route], targetURLs[sh.Path], sh, rt.Expected, clk.At)
 	if err != nil {
 		return pickFailed, noTie, nil, err
 	}
